@@ -494,8 +494,8 @@ def gen_long_srcloc(rng, n):
         elif shape == 1: path = (b'p' * 7 + b'/') * (total // 8) + b'f.cpp'
         else: path = b'x' * total
         line = str(rng.choice([1, 5, 42, 65535])).encode()
-        p = pats[i % len(pats)]
-        if i % 2 == 0:
+        p = pats[(i // 3) % len(pats)]          # every pattern with every shape
+        if (i // 3 + i) % 2 == 0:
             d = e2e_case(rng, rng.choice([0, 1]), 0, rng.choice([b'm', b'a\nb']), items=[('L', b'')])
             d.update(pattern=p, rt_file=path, rt_line=line, kind='long-srcloc')
         else:
@@ -722,7 +722,7 @@ def run(tier):
     orc = Oracle(ck, iexe); rng = ck.rng
     objs = (gen_direct(rng, 3000 if q else 40000) + gen_malformed(rng, 800 if q else 10000)
             + gen_e2e(rng, 300 if q else 4000, 6 if q else 9) + gen_fmt(rng, 1000 if q else 15000)
-            + gen_state(rng, 600 if q else 8000) + gen_json(rng, 60 if q else 600) + gen_long_srcloc(rng, 6 if q else 30))
+            + gen_state(rng, 600 if q else 8000) + gen_json(rng, 60 if q else 600) + gen_long_srcloc(rng, 18 if q else 72))
     dobjs = D.gen(rng, 1500 if q else 20000, hoist)
     tm = orc.times([o['st']['ts'] for o in objs if o['mode'] == 0])
     for o in objs:
